@@ -15,6 +15,7 @@ import (
 	"encoding/hex"
 	"fmt"
 	"math/big"
+	"os"
 	"sort"
 	"strings"
 	"time"
@@ -462,8 +463,18 @@ func saltBytes(s string) ([]byte, bool) {
 
 func hashCase(r *Rng, ls [][]byte, ha uint8, iter uint16, salt string, emit bool) {
 	name := refShowName(ls)
-	got := dns.HashName(name, ha, iter, salt)
 	in := hashIn{Labels: labelsIn(ls), Name: name, Alg: ha, Iter: iter, Salt: salt}
+	// HashName terminates for every iteration count (a bounded number of SHA-1 rounds): watchdog
+	done := make(chan string, 1)
+	go func() { done <- dns.HashName(name, ha, iter, salt) }()
+	var got string
+	select {
+	case got = <-done:
+	case <-time.After(60 * time.Second):
+		Viol("C17/HashName/does-not-terminate", fmt.Sprintf("HashName with %d iterations did not return within 60 s", iter), in)
+		Stat(st)
+		os.Exit(0) // the call is still spinning: report what was found and stop
+	}
 	sb, sok := saltBytes(salt)
 	st["hash_checked"]++
 	if ha == 1 && sok && validWire(ls) {
